@@ -97,7 +97,20 @@ def c08(cx):
              "10 KiB, random result columns.")
 
 
-PROPS = {"C05": c05, "C06": c06, "C07": c07, "C08": c08}
+def c17(cx):
+    return conn_family(
+        cx, "MC_C17", "C17", 500, 10000,
+        consts_thorough={"MaxLayers": 3},
+        rule="TLC enumerates every decorator stack up to MaxLayers layers over 12 layer values (2 codes, 2 severities, "
+             "2 hints, detail, constraint, 2 wraps, 2 sources), returned by a statement function and by the parser, and "
+             "checks the flattening rules (outermost wins, defaults) on the operators; each error is built with the real "
+             "errors package and sent through the real server; TLC validates every ErrorResponse field for field "
+             "(severity, SQLSTATE, message text, hint, detail, file/line/function, constraint, no duplicates, "
+             "well-formed). Random driver: stacks to depth 10 with repetitions, random NUL-free unicode texts, the three "
+             "error paths (simple, parser, extended) and direct ErrorCode calls including nil.")
+
+
+PROPS = {"C05": c05, "C06": c06, "C07": c07, "C08": c08, "C17": c17}
 
 
 def replay(cx, path):
